@@ -187,37 +187,62 @@ def run(repo, rep):
     rep.floor('C10.c', n, 7)
 
     # ---------------------------------------------------------------- C10.d placement & propagation
+    # read off the interpreted printers (E6): when elements were dropped the notice is rendered exactly once, as (the head of) the one
+    # trailing comment - followed by the caller's trailing comment when there is one - and the container is forced to break
     n = 0
+    from engine import docterm as D
+    from .c11 import depth_feasible
+    itd = S.interp(repo, 'printer')
+
+    def cmts(t, out):
+        if isinstance(t, D.Cmt):
+            out.append(t)
+        for attr in ('items', 'args', 'kwargs', 'child', 'broken', 'flat', 'left', 'right'):
+            v_ = getattr(t, attr, None)
+            if isinstance(v_, list):
+                for x in v_:
+                    for y in (x if isinstance(x, tuple) else (x,)):
+                        if isinstance(y, D.T):
+                            cmts(y, out)
+            elif isinstance(v_, D.T):
+                cmts(v_, out)
+        return out
     for f in sorted(printers.values(), key=lambda x: x.key):
-        # truncation_comment -> trailing_comment -> commentdoc(trailing_comment) as the last part
-        tc = 'trailing_comment'
-        assigns = [s for s in ast.walk(f.node) if isinstance(s, ast.Assign) and src(s.targets[0]) == tc]
-        n += 1
-        ok = False
-        for s in assigns:
-            names = names_in(s.value)
-            if 'truncation_comment' in names:
-                v = s.value
-                # trailing_comment = (truncation + '. ' + trailing) if trailing else truncation
-                ok = isinstance(v, ast.IfExp) and src(v.test) == tc and src(v.orelse) == 'truncation_comment' and \
-                    src(v.body).replace(' ', '') in ("truncation_comment+'.'+trailing_comment".replace(' ', ''),
-                                                     "truncation_comment+'. '+trailing_comment".replace(' ', ''))
-        rep.check(ok, 'C10.d', '%s:notice-becomes-trailing-comment' % f.qualname, f.where,
-                  'notice becomes (the head of) the trailing comment',
-                  'the truncation notice of %s no longer flows into the trailing comment slot unchanged' % f.name, nontrivial=True)
-        cds = [c for c in ast.walk(f.node) if isinstance(c, ast.Call) and call_name(c) == 'commentdoc'
-               and c.args and src(c.args[0]) == tc]
-        g = Guards(f.node)
-        n += 1
-        rep.check(len(cds) == 1 and any(ff.pol and ff.text == tc for ff in g.of(cds[0])), 'C10.d',
-                  '%s:trailing-comment-rendered' % f.qualname, f.where, 'trailing comment rendered once, when present',
-                  '%s renders the trailing comment %d times' % (f.name, len(cds)), nontrivial=True)
-        # forces a break
-        txt = src(f.node)
-        n += 1
-        rep.check('force_break=bool(%s)' % tc in txt or 'has_comment = bool(%s)' % tc in txt, 'C10.d',
-                  '%s:notice-forces-break' % f.qualname, f.where, 'a trailing comment forces the container to break',
-                  '%s no longer forces a break when a trailing comment / truncation notice is present' % f.name)
+        keys = sorted({r.key.strip("'") for r in facts.registry(repo) if r.fn is f and r.key.strip("'") in ('list', 'tuple', 'set', 'dict')})
+        for base in keys:
+            for with_tc in (False, True):
+                try:
+                    v = ValueV('value', S.type_scenario(base, True), [Sym('x0'), Sym('x1')])
+                    kw = {'trailing_comment': SymStr('CALLER-COMMENT', nonempty=True)} if with_tc else {}
+                    res = S.run_printer(repo, itd, f, v, **kw)
+                except Undecided as e:
+                    n += 1
+                    rep.undecided('C10.d', '%s[%s]' % (f.qualname, base), f.where, str(e))
+                    continue
+                for pr, t, ph in res:
+                    if pr.raised is not None or t is None or (depth_feasible(pr.facts, 0) and not depth_feasible(pr.facts, 1)):
+                        continue
+                    truncated = any('max_seq_len' in k_ and v_ for k_, v_ in pr.facts)
+                    if not truncated:
+                        continue
+                    cs = cmts(t, [])
+                    notice = [c for c in cs if 'more elements' in c.prov]
+                    lab = '%s[%s,%s]' % (f.qualname, base, 'with caller comment' if with_tc else 'no caller comment')
+                    n += 1
+                    ok = len(notice) == 1 and (not with_tc or ('CALLER-COMMENT' in notice[0].prov and
+                                                                 notice[0].prov.index('more elements') < notice[0].prov.index('CALLER-COMMENT')))
+                    ok = ok and (not with_tc or sum('CALLER-COMMENT' in c.prov for c in cs) == 1)
+                    rep.check(ok, 'C10.d', lab + ':notice-becomes-trailing-comment', f.where, 'notice rendered once, heading the trailing comment',
+                              '%s on a truncated %s (%s): the comments of the result are %s - the notice must appear exactly once, followed by the '
+                              'caller\'s trailing comment when there is one' % (f.name, base, pr.fact_text()[:60], [c.prov[:70] for c in cs]), nontrivial=True)
+                    n += 1
+                    forced = (isinstance(t, D.Seq) and t.force) or isinstance(t, D.AB) or (isinstance(t, D.Call) and D.contains_forced_break(D.Cat(
+                        [a_ for a_ in t.args if isinstance(a_, D.T)])))
+                    shown = D.show(t)
+                    forced = forced or 'force=True' in shown or shown.startswith('AB(')
+                    rep.check(forced, 'C10.d', lab + ':notice-forces-break', f.where, 'a truncation notice forces the container to break',
+                              '%s on a truncated %s returns %s: the notice is a comment, the closing bracket must not follow it on the same line'
+                              % (f.name, base, shown[:90]), nontrivial=True)
     # every derived context keeps the setting, the constructor stores it (semantic model of the context class)
     from . import ctxmodel
     n += ctxmodel.report(repo, rep, 'C10.d', lambda k: 'max_seq_len' in k or k.endswith(':returns-new-context'),
